@@ -184,7 +184,7 @@ func (w *world) fillPool(t *rapid.T) []poolTx {
 			}
 			p := poolTx{tx: tx, sender: s}
 			if i == failIdx {
-				p.failAt = rapid.SampledFrom([]string{"verify", "execute-invalid", "execute-fail"}).Draw(t, "failKind")
+				p.failAt = rapid.SampledFrom([]string{"verify", "verify-pending", "execute-invalid", "execute-fail"}).Draw(t, "failKind")
 			}
 			out = append(out, p)
 		}
@@ -195,6 +195,9 @@ func (w *world) fillPool(t *rapid.T) []poolTx {
 		switch p.failAt {
 		case "verify":
 			node.SetOutcomeOverride(p.tx.ID, node.TxVerifyFail)
+		case "verify-pending":
+			// the application answers "pending" (e.g. a nonce gap after the tip was deleted): not verified, the sender is skipped
+			node.SetOutcomeOverride(p.tx.ID, node.TxPending)
 		case "execute-invalid":
 			node.SetOutcomeOverride(p.tx.ID, node.TxExecInvalid)
 		case "execute-fail":
@@ -229,7 +232,7 @@ func (w *world) checkSelection(b *blockchain.Block, pooled []poolTx) (nontrivial
 		if idx >= len(bySender[p.sender]) || !bytes.Equal(bySender[p.sender][idx].tx.ID, tx.ID) {
 			w.fail("sender %d: transaction with nonce %d selected out of nonce order", p.sender, tx.Nonce)
 		}
-		if p.failAt == "verify" || p.failAt == "execute-invalid" {
+		if p.failAt == "verify" || p.failAt == "verify-pending" || p.failAt == "execute-invalid" {
 			w.fail("transaction %x failing %s was included", tx.ID[:4], p.failAt)
 		}
 		// fee priority: maximal among the current heads of senders that are not blocked by a failure
@@ -242,7 +245,7 @@ func (w *world) checkSelection(b *blockchain.Block, pooled []poolTx) (nontrivial
 			head := list[taken[s]]
 			hp := head.tx.Fee / uint64(head.tx.Size())
 			if hp > prio && s != p.sender {
-				if head.failAt == "verify" || head.failAt == "execute-invalid" {
+				if head.failAt == "verify" || head.failAt == "verify-pending" || head.failAt == "execute-invalid" {
 					blocked[s] = true
 					continue
 				}
@@ -257,7 +260,7 @@ func (w *world) checkSelection(b *blockchain.Block, pooled []poolTx) (nontrivial
 	// nothing from a sender after its failing transaction (implied by prefix rule + exclusion above)
 	senders, failures, cut := len(bySender), 0, false
 	for _, p := range pooled {
-		if p.failAt == "verify" || p.failAt == "execute-invalid" {
+		if p.failAt == "verify" || p.failAt == "verify-pending" || p.failAt == "execute-invalid" {
 			failures++
 		}
 	}
